@@ -192,7 +192,19 @@ def ob_units_regions(h):
     h.check("units_is_members_minus_one_per_region", got == len(regions) * (2 + 2 + 1 + 1) - len(regions))
 
 
-def obligations():
+def _deps(module, names, prefix, why):
+    """callee contracts this property's clauses are stated against, discharged here as well (same harness objects, other names)"""
+    out = []
+    for o in module.obligations():
+        base = o.name.split("[")[0]
+        if base in names and o.tier == "quick":
+            out.append(Obligation(o.name.replace(base.split(".")[0] + ".", prefix, 1), o.fn, kind=o.kind, functions=o.functions, bound=o.bound, max_paths=o.max_paths, params=o.params,
+                                  timeout_ms=o.timeout_ms, expect=o.expect, stubs=o.stubs, runner=o.runner, time_budget_s=o.time_budget_s,
+                                  doc=f"(callee contract, shared with {base.split('.')[0]}: {why}) " + (o.doc or "")))
+    return out
+
+
+def _own_obligations():
     return [
         Obligation("C15.capex.formula", ob_capex_formula, functions=[costing.compute_capital_cost]),
         Obligation("C15.capex.monotone", ob_capex_monotone, functions=[costing.compute_capital_cost, costing.compute_annual_capital_cost], timeout_ms=30000),
@@ -207,3 +219,10 @@ def obligations():
                    doc="UNITS: regions between consecutive meeting points; sum of members minus one per region"),
         Obligation("C15.bcc.b", ob_bcc, kind="bounded", bound="tables of 2..3 rows, all cells symbolic", functions=[ca.get_balanced_CC], max_paths=100000),
     ]
+
+
+def obligations():
+    from . import C20
+    # the area target divides by the log-mean temperature difference: the helper's contracts (C20) are discharged here too
+    return _own_obligations() + _deps(C20, ("C20.lmtd.between_end_differences", "C20.lmtd.upper", "C20.lmtd.symmetric", "C20.lmtd.equal_branch", "C20.lmtd.refuses_nonpositive",
+                                            "C20.lmtd.from_ts"), "C15.dep.", "log-mean temperature difference used by the area target")
